@@ -31,6 +31,20 @@ def cases(tier, salts):
                                     continue
                                 out.append({"m": m, "n": n, "lam": lam, "reg": reg, "box": box, "x0": x0k, "conv": conv,
                                             "scaling": False, "salt": salt})
+            # strong regularisation (lambda relative to ||2 A'b||_inf: the optimum is heavily shrunk, or the origin itself),
+            # started from the unregularised least-squares solution, where every good step *increases* sum(r^2)
+            for lam in (("rel0.7", "rel1.5", "rel4") if tier == "quick" else ("rel0.3", "rel0.7", "rel1.5", "rel4")):
+                for reg in ("l1", "l2"):
+                    for box in ("none", "inactive", "active"):
+                        for x0k in ("ls", "ordinary"):
+                            if tier == "quick" and (salt != 0 and (x0k != "ls" or box == "inactive")):
+                                continue
+                            if lam == "rel4" and x0k != "ls":
+                                continue
+                            out.append({"m": m, "n": n, "lam": lam, "reg": reg, "box": box, "x0": x0k, "conv": "closure",
+                                        "scaling": False, "salt": salt})
+            for lam in LAMS:
+                for reg in ("l1", "l2"):
                     # regulariser + internal scaling (documented limitation: recorded as a known finding)
                     if salt == 0:
                         for box in ("inactive", "active"):
@@ -66,12 +80,21 @@ def reference(A, b, reg, lam, lo, hi):
     return best
 
 
+def lam_of(case, A, b):
+    """lambda of a case: a number, or 'rel<t>' = t * ||2 A'b||_inf (for the L1 norm the optimum is the origin when t >= 1)."""
+    lam = case["lam"]
+    if isinstance(lam, str):
+        return float(lam[3:]) * float(np.max(np.abs(2.0 * A.T.dot(b))))
+    return float(lam)
+
+
 def build(case):
     m, n = case["m"], case["n"]
     A, b = oracles.lin_bank(m, n, 3.0, 0, case["salt"])
     b = b + 0.8                      # keep the regularised optimum away from the origin for small lambda
     inf_lo, inf_hi = np.full(n, -1e20), np.full(n, 1e20)
-    f0, xbar = reference(A, b, case["reg"], case["lam"], inf_lo, inf_hi)
+    lam = lam_of(case, A, b)
+    f0, xbar = reference(A, b, case["reg"], lam, inf_lo, inf_hi)
     lo, hi = inf_lo.copy(), inf_hi.copy()
     if case["box"] == "inactive":
         lo, hi = xbar - 1.5, xbar + 1.5
@@ -82,17 +105,22 @@ def build(case):
         if n > 1:
             hi[n - 1] = xbar[n - 1] - 0.15
             lo[n - 1] = xbar[n - 1] - 1.9
-    x0 = np.zeros(n) if case["x0"] == "origin" else xbar + 0.45 * np.array([(-1.0) ** j for j in range(n)])
-    return A, b, lo, hi, x0
+    if case["x0"] == "origin":
+        x0 = np.zeros(n)
+    elif case["x0"] == "ls":         # unregularised least-squares solution, moved into the box
+        x0 = np.minimum(np.maximum(np.linalg.lstsq(A, b, rcond=None)[0], lo), hi)
+    else:
+        x0 = xbar + 0.45 * np.array([(-1.0) ** j for j in range(n)])
+    return A, b, lo, hi, x0, lam
 
 
 def check_case(case):
-    A, b, lo, hi, x0 = build(case)
+    A, b, lo, hi, x0, lam = build(case)
     n = case["n"]
     bounded = case["box"] != "none"
-    Fstar, xstar = reference(A, b, case["reg"], case["lam"], lo, hi)
+    Fstar, xstar = reference(A, b, case["reg"], lam, lo, hi)
     cfg = {"prob": {"f": "lin", "A": A.tolist(), "b": b.tolist(), "salt": 0}, "x0": x0.tolist(), "memo": True,
-           "reg": {"r": case["reg"], "lam": case["lam"], "args": case["conv"] == "args"}}
+           "reg": {"r": case["reg"], "lam": lam, "args": case["conv"] == "args"}}
     if bounded:
         cfg["lo"], cfg["hi"] = lo.tolist(), hi.tolist()
         if case["scaling"]:
@@ -100,6 +128,12 @@ def check_case(case):
     ex = solvex.Execution(cfg, monitors=[mon.BoundsMonitor()]).run()
     v = []
     tags = ["conv:" + case["conv"], "reg:" + case["reg"], "box:" + case["box"]]
+    if isinstance(case["lam"], str):
+        tags.append("strong_reg")
+        if float(np.sum((A.dot(x0) - b) ** 2)) < float(np.sum((A.dot(xstar) - b) ** 2)):
+            tags.append("start_has_smaller_residual_than_optimum")
+        if float(np.max(np.abs(xstar))) < 1e-9:
+            tags.append("optimum_is_origin")
     if ex.outcome != "returned":
         return [("returns", "solve did not return: %s %s: %s" % (ex.outcome, type(ex.exc).__name__, ex.exc))], tags
     s = ex.soln
@@ -109,8 +143,8 @@ def check_case(case):
         v.append(("feasible", d))
     # extra arguments passed through unchanged on every call
     log = ex.reg["log"]
-    want_h = (case["lam"], "for-h") if case["conv"] == "args" else ()
-    want_p = ("for-prox", case["lam"], 3) if case["conv"] == "args" else ()
+    want_h = (lam, "for-h") if case["conv"] == "args" else ()
+    want_p = ("for-prox", lam, 3) if case["conv"] == "args" else ()
     bad_h = [a for a in log["h"] if a != want_h]
     bad_p = [a for a in log["prox"] if a != want_p]
     if bad_h:
@@ -123,7 +157,7 @@ def check_case(case):
         v.append(("success", "flag %s (%s) after %d evaluations" % (s.flag, s.msg, s.nf)))
     x = np.asarray(s.x)
     r = A.dot(x) - b
-    Fx = float(r.dot(r)) + case["lam"] * float(np.sum(np.abs(x)) if case["reg"] == "l1" else np.sqrt(x.dot(x)))
+    Fx = float(r.dot(r)) + lam * float(np.sum(np.abs(x)) if case["reg"] == "l1" else np.sqrt(x.dot(x)))
     if abs(Fx - s.obj) > 1e-9 * (1 + abs(Fx)):
         v.append(("obj_consistent", "soln.obj=%r but sum(r^2)+h at soln.x is %r" % (s.obj, Fx)))
     gap = s.obj - Fstar
@@ -150,7 +184,8 @@ def run(report, tier, seed):
     cs = cases(tier, salts)
     tags = gridx.run_grid(report, MOD, cs, classify=classify, chunk=3)
     cov = report.coverage
-    need = ["conv:args", "conv:closure", "reg:l1", "reg:l2", "active_at_optimum", "sparse_optimum"]
+    need = ["conv:args", "conv:closure", "reg:l1", "reg:l2", "active_at_optimum", "sparse_optimum", "strong_reg",
+            "start_has_smaller_residual_than_optimum", "optimum_is_origin"]
     missing = [t for t in need if not tags.get(t)]
     if missing:
         raise common.HarnessError("C06 grid is vacuous: %s never occurred" % missing)
